@@ -160,7 +160,14 @@ def build_metadata(schema):
             if ix["cols"][0] in flagged and flagged[ix["cols"][0]] is ix and not any(c["name"] == ix["cols"][0] and c.get("computed") for c in t["cols"]):
                 continue  # created by the column flag
             # "desc": first column descending - SQLite reflects the index with plain column names
-            exprs = [tbl.c[c].desc() if (i == 0 and ix.get("desc")) else tbl.c[c] for i, c in enumerate(ix["cols"])]
+            def _mod(col, how):
+                if how == "desc_nulls_last":
+                    return col.desc().nulls_last()
+                if how == "asc_nulls_first":
+                    return col.asc().nulls_first()
+                return col.desc()
+
+            exprs = [_mod(tbl.c[c], ix["desc"]) if (i == 0 and ix.get("desc")) else tbl.c[c] for i, c in enumerate(ix["cols"])]
             sa.Index(ix["name"], *exprs, unique=bool(ix.get("unique")))
         for fx in t.get("fixs", []):
             # expression-based index: SQLite does not reflect it, autogenerate skips it (with a warning)
@@ -356,6 +363,15 @@ def configure(conn, md, compare_type=True, compare_server_default=True, batch=Tr
             "target_metadata": md,
         },
     )
+
+
+def produce_again(mctx, md):
+    """a further autogenerate run through the SAME MigrationContext (what an API user calling compare_metadata /
+    produce_migrations twice on one context does); returns the canonical ops"""
+    with warnings.catch_warnings():
+        warnings.simplefilter("ignore")
+        script = ag_api.produce_migrations(mctx, md)
+    return canon_diffs(mctx, script.upgrade_ops.as_diffs())
 
 
 def produce(conn, md, compare_type=True, compare_server_default=True, batch=True):
